@@ -78,7 +78,10 @@ type Violation struct {
 var ProcWarm func(mode int)
 
 // ProcModeFor derives the mode of the child that starts at case `from`.
-func ProcModeFor(seed int64, from int) int { return int(Mix(uint64(seed), uint64(from)+0x51ed) % 3) }
+//
+// Modes 3..5 are 0..2 with, in addition, user-installed package defaults in force for the whole process (an active
+// default logger at every log level for Stacks and Conditions): every instance the case builds then logs.
+func ProcModeFor(seed int64, from int) int { return int(Mix(uint64(seed), uint64(from)+0x51ed) % 6) }
 
 const maxKeptViolations = 40
 const maxSamples = 5
